@@ -127,6 +127,15 @@ CORPUS = [
     {"kind": "hist", "src": "def f(a: Qint[2], c: Parameter[Tuple[bool, Qint[2]]], d: Parameter[bool]) -> Qint[2]:\n    return (c[1] + a) if (c[0] ^ d) else a\n",
      "args": [["a", "Qint2"], ["c", ["bool", "Qint2"]], ["d", "bool"]], "ret": "Qint2", "params": [1, 2],
      "history": [["bind", [(True, 2), False]], ["bad_count"], ["bind", [(False, 3), True]], ["bind", [(True, 2), False]]], "feat": []},
+    # list-of-lists parameters indexed with runtime indices: non-square shapes
+    {"kind": "hist", "src": "def f(c: Parameter[List[List[Qint[2]]]], i: Qint[2], j: Qint[2]) -> Qint[2]:\n    return c[i][j]\n", "args": [["c", [["Qint2"] * 3] * 2], ["i", "Qint2"], ["j", "Qint2"]], "ret": "Qint2", "params": [0],
+     "history": [["bind", [((1, 2, 3), (3, 0, 1))]], ["bind", [((0, 1, 0), (2, 2, 3))]], ["bind", [((1, 2, 3), (3, 0, 1))]]], "feat": ["matrix_param"]},
+    {"kind": "hist", "src": "def f(c: Parameter[List[List[Qint[2]]]], i: Qint[2], j: Qint[2]) -> Qint[2]:\n    return c[i][j]\n", "args": [["c", [["Qint2"] * 2] * 3], ["i", "Qint2"], ["j", "Qint2"]], "ret": "Qint2", "params": [0],
+     "history": [["bind", [((1, 2), (3, 0), (2, 1))]], ["bind", [((3, 3), (0, 1), (1, 2))]]], "feat": ["matrix_param"]},
+    {"kind": "hist", "src": "def f(c: Parameter[List[List[bool]]], i: Qint[2], j: Qint[2], a: bool) -> bool:\n    return c[i][j] ^ a\n", "args": [["c", [["bool"] * 4] * 2], ["i", "Qint2"], ["j", "Qint2"], ["a", "bool"]], "ret": "bool", "params": [0],
+     "history": [["bind", [((True, False, False, True), (False, True, True, True))]], ["bind", [((False, False, True, False), (True, True, False, False))]]], "feat": ["matrix_param"]},
+    {"kind": "hist", "src": "def f(c: Parameter[List[List[Qint[2]]]], i: Qint[2]) -> Qint[2]:\n    s = 0\n    for r in c:\n        s = s ^ r[i]\n    return s + len(c)\n", "args": [["c", [["Qint2"] * 3] * 2], ["i", "Qint2"]], "ret": "Qint2", "params": [0],
+     "history": [["bind", [((1, 2, 3), (3, 0, 1))]], ["bind", [((0, 0, 1), (1, 3, 2))]]], "feat": ["matrix_param"]},
     {"kind": "hist", "src": "def f(c: Parameter[Qlist[bool, 2]]) -> bool:\n    return c[0] and c[1]\n", "args": [["c", ["bool", "bool"]]], "ret": "bool", "params": [0],
      "history": [["bind", [(True, True)]], ["bind", [(True, False)]], ["bind", [(True, True)]]], "feat": []},
 ]
